@@ -5,6 +5,7 @@
 -/
 import NetflowModel.Export
 import NetflowModel.Common
+import NetflowModel.Spec.Expected
 namespace Netflow.Preds
 open Netflow
 
@@ -43,5 +44,190 @@ def decomposes (c : Config) : Bytes → List Packet → Bool
     match wireLen c p with
     | none => false                 -- an error element that is not last
     | some n => decide (0 < n) && decide (n ≤ buf.length) && decomposes c (buf.drop n) ps
+
+
+/-! ### C03 — V5/V7 decode per the Cisco layouts -/
+
+/-- the record `vals` (in the order of layout `lay`) carries, for every Cisco field, the big-endian
+    value found at that field's Cisco offset in `bytes` -/
+def fieldsAtOffsets (lay : Layout) (spec : List (String × Nat)) (bytes : Bytes) (vals : List Nat) : Bool :=
+  spec.all fun p => lay.get p.1 vals == beNat ((bytes.drop (Spec.offsetOf spec p.1)).take p.2)
+
+/-- the symbolic protocol attached to a record is the IANA name of its protocol number -/
+def protoIsIana (names : List (Nat × String)) (lay : Layout) (vals : List Nat) : Bool :=
+  (names.lookup (lay.get "protocol_type" vals)) == some (Spec.ianaName (lay.get "protocol_number" vals))
+
+def recsAtOffsets (names : List (Nat × String)) (lay : Layout) (spec : List (String × Nat)) : Bytes → List (List Nat) → Bool
+  | _, [] => true
+  | bytes, r :: rs =>
+    fieldsAtOffsets lay spec bytes r && protoIsIana names lay r && r.length == lay.length &&
+    recsAtOffsets names lay spec (bytes.drop (Spec.totalLen spec)) rs
+
+/-- `pkt` is the faithful decoding of the complete V5/V7 packet at the head of `buf` -/
+def fixedDecodes (names : List (Nat × String)) (hdrLay recLay : Layout) (hdrSpec recSpec : List (String × Nat))
+    (buf : Bytes) (h : List Nat) (rs : List (List Nat)) : Bool :=
+  fieldsAtOffsets hdrLay hdrSpec buf h && h.length == hdrLay.length &&
+  rs.length == hdrLay.get "count" h &&
+  recsAtOffsets names recLay recSpec (buf.drop (Spec.totalLen hdrSpec)) rs
+
+/-- C03 along the decomposition of a buffer: at every position that starts with an (allowed)
+    version word 5 or 7, a complete packet decodes faithfully and an incomplete one is an error -/
+def c03ok (c : Config) (names : List (Nat × String)) : Nat → Bytes → List Packet → Bool
+  | 0, _, _ => true
+  | fuel + 1, buf, pkts =>
+    match versionOf buf with
+    | none => true
+    | some v =>
+      if !c.allowed.contains v then true
+      else
+        let fixed (hdrLay recLay : Layout) (hdrSpec recSpec : List (String × Nat)) (isV : Packet → Option (List Nat × List (List Nat))) : Bool :=
+          let need := Spec.totalLen hdrSpec + Spec.totalLen recSpec * beNat ((buf.drop 2).take 2)
+          if buf.length < Spec.totalLen hdrSpec ∨ buf.length < need then
+            -- shorter than announced: an error, never a packet
+            (match pkts with
+             | [.error _ _] => true
+             | _ => false)
+          else
+            match pkts with
+            | p :: ps =>
+              (match isV p with
+               | some (h, rs) => fixedDecodes names hdrLay recLay hdrSpec recSpec buf h rs && c03ok c names fuel (buf.drop need) ps
+               | none => false)
+            | [] => false
+        if v = 5 then
+          fixed c.t.v5Hdr c.t.v5Rec Spec.ciscoV5Hdr Spec.ciscoV5Rec (fun p => match p with | .v5 h rs => some (h, rs) | _ => none)
+        else if v = 7 then
+          fixed c.t.v7Hdr c.t.v7Rec Spec.ciscoV7Hdr Spec.ciscoV7Rec (fun p => match p with | .v7 h rs => some (h, rs) | _ => none)
+        else
+          match pkts with
+          | p :: ps =>
+            (match wireLen c p with
+             | some n => if n = 0 then true else c03ok c names fuel (buf.drop n) ps
+             | none => true)
+          | [] => true
+
+/-! ### C08 / C09 / C10 — re-export reproduces the bytes each packet occupied -/
+
+def reexportOk (c : Config) (sel : Packet → Bool) : Bytes → List Packet → List (Option (Out Bytes)) → Bool
+  | _, [], [] => true
+  | buf, p :: ps, e :: es =>
+    match wireLen c p with
+    | none => e == none && ps.isEmpty
+    | some n => (!sel p || e == some (.ok (buf.take n))) && reexportOk c sel (buf.drop n) ps es
+  | _, _, _ => false
+
+def isFixedPkt : Packet → Bool
+  | .v5 .. => true | .v7 .. => true | _ => false
+def isV9Pkt : Packet → Bool
+  | .v9 .. => true | _ => false
+def isIpfixPkt : Packet → Bool
+  | .ipfix .. => true | _ => false
+
+/-! ### C13 — the common view is a faithful projection -/
+
+def numOf : FieldValue → Option Nat
+  | .num (.u8 n) | .num (.u16 n) | .num (.u24 n) | .num (.u32 n) | .num (.u64 n) | .num (.u128 n) => some n
+  | _ => none
+
+/-- milliseconds carried by a decoded time field -/
+def timeOf : FieldValue → Option Nat
+  | .dur s ns => some (s * 1000 + ns / 1000000)
+  | v => numOf v
+
+def protoNumOf (t : Tables) : FieldValue → Option Nat
+  | .proto d => some (t.protoToU8 d)
+  | v => numOf v
+
+def firstField (r : Rec) (disc : Nat) : Option FieldValue :=
+  match r.find? (fun e => e.2.1 == disc) with
+  | some e => some e.2.2
+  | none => none
+
+/-- what the common flow of a decoded record must be: every projected attribute equals the decoded
+    field of that record, absent iff the record has no such field -/
+def specFlow (t : Tables) (names : List (Nat × String)) (k : CommonKeys) (r : Rec) : CommonFlow :=
+  let ip (a b : Nat) : Option IpAddrM :=
+    match firstField r a with
+    | some v => asIp v
+    | none => (firstField r b).bind asIp
+  { srcAddr := ip k.src4 k.src6
+    dstAddr := ip k.dst4 k.dst6
+    srcPort := (firstField r k.sport).bind numOf
+    dstPort := (firstField r k.dport).bind numOf
+    protoNum := (firstField r k.proto).bind (protoNumOf t)
+    protoType := ((firstField r k.proto).bind (protoNumOf t)).map (Spec.protoSpecDisc names)
+    first := (firstField r k.first).bind timeOf
+    last := (firstField r k.last).bind timeOf
+    srcMac := (firstField r k.smac).bind asString
+    dstMac := (firstField r k.dmac).bind asString }
+
+/-- regroup IPFIX per-field maps into records (a new record starts at field index 0) -/
+def regroup : List Rec → List Rec → List Rec
+  | [], acc => acc.reverse
+  | r :: rs, acc =>
+    match r, acc with
+    | (0, _) :: _, _ => regroup rs (r :: acc)
+    | _, a :: acc' => regroup rs ((a ++ r) :: acc')
+    | _, [] => regroup rs [r]
+
+def specFixedFlow (names : List (Nat × String)) (lay : Layout) (vals : List Nat) : CommonFlow :=
+  { srcAddr := some (false, lay.get "src_addr" vals), dstAddr := some (false, lay.get "dst_addr" vals)
+    srcPort := some (lay.get "src_port" vals), dstPort := some (lay.get "dst_port" vals)
+    protoNum := some (lay.get "protocol_number" vals)
+    protoType := some (Spec.protoSpecDisc names (lay.get "protocol_number" vals))
+    first := some (lay.get "first" vals), last := some (lay.get "last" vals) }
+
+/-- the common view a packet must have -/
+def specCommon (c : Config) (names : List (Nat × String)) : Packet → Option Common
+  | .v5 h rs => some { version := 5, timestamp := c.t.v5Hdr.get "sys_up_time" h, flows := rs.map (specFixedFlow names c.t.v5Rec) }
+  | .v7 h rs => some { version := 7, timestamp := c.t.v7Hdr.get "sys_up_time" h, flows := rs.map (specFixedFlow names c.t.v7Rec) }
+  | .v9 h ss => some { version := 9, timestamp := c.t.v9Hdr.get "sys_up_time" h,
+                       flows := (v9DataRecs ss).map (specFlow c.t names c.t.commonV9) }
+  | .ipfix h ss => some { version := 10, timestamp := c.t.ipHdr.get "export_time" h,
+                          flows := (regroup (ipDataRecs ss) []).map (specFlow c.t names c.t.commonIp) }
+  | .error _ _ => none
+
+def commonOk (c : Config) (names : List (Nat × String)) (pkts : List Packet) (cs : List (Option Common)) : Bool :=
+  pkts.length == cs.length && (pkts.zip cs).all fun p => specCommon c names p.1 == p.2
+
+end Netflow.Preds
+
+namespace Netflow.Preds
+open Netflow
+
+/-! ### C12 — the result under allowed set `S` is the all-allowed result cut before the first
+    packet whose version word is not in `S` -/
+def takeAllowed (cAll : Config) (S : List Nat) : Nat → Bytes → List Packet → List Packet
+  | 0, _, _ => []
+  | _ + 1, _, [] => []
+  | fuel + 1, buf, p :: ps =>
+    match versionOf buf with
+    | none => [p]                                 -- fewer than 2 bytes: the Incomplete error is reported under every S
+    | some v =>
+      if !S.contains v then []
+      else
+        match wireLen cAll p with
+        | none => [p]
+        | some n => p :: takeAllowed cAll S fuel (buf.drop n) ps
+
+end Netflow.Preds
+
+namespace Netflow.Preds
+open Netflow
+
+/-! ### C07 — a data set for template id `tid` unknown to protocol `proto` never yields records:
+    the V9 packet carrying it is an error, an IPFIX message has no decoded set with that id;
+    packets before it are reported (non-error) -/
+def noRecordsFor (tid proto : Nat) (pkts : List Packet) : Bool :=
+  let noSet : Packet → Bool
+    | .v9 _ ss => proto != 9 || ss.all fun s => s.id != tid
+    | .ipfix _ ss => proto != 10 || ss.all fun s => s.id != tid
+    | _ => true
+  pkts.all noSet &&
+  (match pkts.getLast? with
+   | some (.error (.partialParse v _) _) => proto == 9 && v == 9
+   | some (.ipfix _ _) => proto == 10
+   | _ => false) &&
+  pkts.dropLast.all fun p => match p with | .error _ _ => false | _ => true
 
 end Netflow.Preds
